@@ -227,6 +227,17 @@ def fd_map_shape(rep):
         want = ("list", "i0", ("range", P[3], P[4]), ("call", P[0], (P[1], ("sym", "i0"), P[2])))
         got = canon_lists(v[1] if v[0] == "arr" else v)
         ok = got == want
+        # a verdict needs a term of the recognised kind: the list, over a range, of calls of
+        # the scheme; anything else is not understood
+        # (or a preallocated block filled in place, which takes the block's dtype and shape
+        # instead of those of the scheme's results: recognised, and wrong)
+        recognised = isinstance(got, tuple) and len(got) >= 4 and (
+            got[0] == "filled" or (
+                got[0] == "list" and isinstance(got[2], tuple) and got[2][:1] == ("range",)
+                and isinstance(got[3], tuple) and got[3][:1] == ("call",)))
+        if not ok and not recognised:
+            raise AnalysisError(f"fd_map: the value returned ({str(got)[:120]}) is not a list of "
+                                "scheme evaluations over an index range")
     rep.check(ok, "fd-map-shape", f"{FD}::fd_map",
               "fd_map must evaluate func(farray, i, idx) for every i in [imin, imax), in "
               "order", node=fn)
